@@ -3,8 +3,40 @@ import json, os, random, re, shutil, subprocess
 from vlib import *
 import props_gendir as GD
 
-GOOD_LOX = GD.spec_files("s1")["g.lox"]
-GOOD_GO = GD.spec_files("s1")["parser.go"]
+# a light project (no imports: `go list` stays fast) -- most of the 600+ runs of this check load it
+GOOD_LOX = """@lexer
+NUM = [0-9]+
+ADD = '+'
+MUL = '*'
+OP = '(' @push_mode(Inner)
+@mode Inner {
+  CP = ')' @pop_mode
+  INUM = [0-9]+
+}
+@frag ' '+ @discard
+
+@parser
+@start expr = expr '+' expr @left(1)
+            | expr '*' expr @left(2)
+            | OP INUM* CP
+            | NUM
+"""
+GOOD_GO = """package calcpkg
+
+type Token struct {
+	Ty  int
+	Str string
+}
+
+type calcParser struct {
+	lox
+	n int
+}
+
+func (p *calcParser) on_expr__bin(l int, op Token, r int) int { return l + r }
+func (p *calcParser) on_expr__paren(o Token, xs []Token, c Token) int { return len(xs) }
+func (p *calcParser) on_expr__num(t Token) int { return 1 }
+"""
 GOOD2_LOX = GD.spec_files("s2")["j.lox"]
 GOOD2_GO = GD.spec_files("s2")["a.go"]
 
